@@ -660,7 +660,15 @@ fn render_wview(mode: &str, nodes: &[Node]) -> Option<String> {
         }
         _ => {
             let (o1, ok1) = paint(hx_c06::stream::first_paint(&html_out), &first);
-            let (o2, ok2) = paint(&hx_c06::stream::apply_scripts(&html_out), &settled);
+            // the scripts move nodes of separately parsed pieces; nothing is re-parsed
+            let (o2, ok2) = match hx_c06::stream::settle(&html_out) {
+                Some(t) => {
+                    let n = enc::norm(&t);
+                    let ok = n == enc::norm(&enc::expected(&settled));
+                    (enc::canon(&n), ok)
+                }
+                None => ("none".to_string(), false),
+            };
             let v = if !ok1 {
                 "fail first-paint"
             } else if !ok2 {
